@@ -72,9 +72,9 @@ def gen_ops(rng, hostile):
         if k < 0.65:
             return []                                           # nothing happened
         if k < 0.75:
-            return [('rotate', b'')]
+            return [('rotate', rbytes(rng, rng.choice([0, 0, 0, 7, 7, 40, 1100])))]
         if k < 0.82:
-            return [('remove_create', b'')]
+            return [('remove_create', rbytes(rng, rng.choice([0, 0, 0, 7, 7, 40, 1100])))]
         if k < 0.9:
             return [('truncate', 0)]
         return [('append', rbytes(rng, 3)), ('append', rbytes(rng, 2))]
@@ -102,6 +102,14 @@ def gen_ops(rng, hostile):
     return ops
 
 
+# request-header variants of a tail request; HTTP/1.1 without `close` must be chunked
+CHUNKED_VARIANTS = [(), ('Connection: keep-alive',), ('Connection: Keep-Alive',), ('connection: KEEP-ALIVE',),
+                    ('Connection: keep-alive, TE', 'TE: trailers'), ('Host: localhost', 'Connection: keep-alive', 'Accept: */*'),
+                    ('Connection: TE',), ('Proxy-Connection: keep-alive',)]
+REQUEST_VARIANTS = ([('1.1', hv, True) for hv in CHUNKED_VARIANTS] +
+                    [('1.1', ('Connection: close',), False), ('1.1', ('Connection: Close',), False),
+                     ('1.0', (), False), ('1.0', ('Connection: keep-alive',), False), ('1.0', ('Connection: Keep-Alive',), False)])
+
 SCRIPTED = [
     # (initial, steps, head)
     (b'', [[('append', b'a')], [('append', b'bc')], [], [('append', b'd')]], 1024),
@@ -112,6 +120,11 @@ SCRIPTED = [
     (b'abc', [[], [('append', b'def'), ('rotate', b'')], [('append', b'new')]], 1024),        # tail of old file lost
     (b'abc', [[], [('rotate', b'XYZWV')], [('append', b'!')]], 1024),                         # rotated and already larger
     (b'abc', [[], [('remove_create', b'')], [('append', b'n')]], 1024),
+    # the new file already holds more than `head` (1024) bytes at the first poll after the rotation / re-creation:
+    # all of it must be delivered, from its first byte
+    (b'abc', [[], [('rotate', bytes(range(32, 127)) * 16)], [('append', b'!')]], 1024),
+    (b'abc' * 500, [[], [('remove_create', bytes(range(48, 100)) * 40)], [('append', b'more')], []], 1024),
+    (b'', [[], [('rotate', b'x' * 1024)], [('rotate', b'y' * 1025), ('append', b'z')]], 1024),
     (b'abcdef', [[], [('truncate', 2)], [], [('append', b'gh')]], 1024),
     (b'abcdef', [[], [('truncate', 0)], [('append', b'gh')]], 1024),
     (b'abc', [[], [('truncate_regrow', b'xyzw')], []], 1024),                                  # truncated + regrown beyond sz
@@ -194,6 +207,7 @@ def run_part(chk, workdir):
 
     # ---- 2. the real responses, HTTP/1.1 chunked
     stream_cases, stream_meta = [], []
+    zombie_cases, zombie_meta = [], []
     streams = []          # (body bytes, chunks expected by the model's view) for the decoder part
     bed = H.StreamBed(os.path.join(wd, 'srv'), S17.Testbed) if _mk(os.path.join(wd, 'srv')) else None
     try:
@@ -215,15 +229,19 @@ def run_part(chk, workdir):
             if steps and steps[0] == []:
                 steps = steps[1:]
             try:
-                headb, bursts, states = bed.stream(url, logpath, initial, steps, inet=(idx % 3 == 2))
+                hv = CHUNKED_VARIANTS[idx % len(CHUNKED_VARIANTS)]
+                headb, bursts, states = bed.stream(url, logpath, initial, steps, inet=(idx % 3 == 2), headers=hv)
+                count('stream-request:' + (hv[0].split(':')[0].lower() + '=' + hv[0].split(':', 1)[1].strip().lower() if hv else 'no-connection-header'))
                 count('stream-socket:' + ('inet' if idx % 3 == 2 else 'unix'))
             except OSError:
                 count('stream:skipped')
                 continue
             count('stream:' + url.split('/')[1] + ('-stderr' if url.endswith('stderr') else '-pct' if '%' in url else ''))
             if not headb.startswith(b'HTTP/1.1 200') or b'Transfer-Encoding: chunked' not in headb:
-                chk.violation({'kind': 'tail response is not a chunked 200', 'head': headb.decode('latin-1'),
-                               'url': url})
+                chk.violation({'kind': 'PROPERTY VIOLATED: an HTTP/1.1 tail request that does not ask to close did not get a '
+                               'chunked 200 response head', 'first_bytes': headb[:300].decode('latin-1'), 'url': url,
+                               'request': 'GET %s HTTP/1.1' % url, 'request_headers': list(hv), 'initial': list(initial[:200]),
+                               'steps': _j(steps)})
                 continue
             id0, table0 = states[0]
             stream_cases.append('(%s, %s, %s, %s, %s)' % (
@@ -239,17 +257,70 @@ def run_part(chk, workdir):
                 data, complete = H.independent_decode(body)
                 if complete:
                     chk.violation({'kind': 'tail stream was terminated by the server', 'url': url, 'steps': _j(steps)})
-        # ---- 2b. HTTP/1.0: not chunked; what arrives is recorded (candidate finding)
-        for initial, steps in ((b'abc', [[('append', b'def')], [('append', b'ghi')]]),):
-            headb, bursts, states = bed.stream('/mainlogtail', os.path.join(bed.workdir, 'main.log'), initial, steps,
-                                               version='1.0')
-            got = headb + b''.join(bursts)
-            count('stream:http1.0')
-            if got == b'':
-                known['http10'] += 1
-            elif b'abcdefghi' not in got:
-                chk.violation({'kind': 'HTTP/1.0 tail delivered something other than the log bytes',
-                               'got': list(got[:400])}, nofail=True)
+        # ---- 2b. every request-header variant: which requests get the chunked stream.  HTTP/1.1 that does not ask
+        #          to close must get a chunked 200 head at once; HTTP/1.0 and `Connection: close` are the known
+        #          finding (held back by the globbing producer)
+        for version, hv, chunked in REQUEST_VARIANTS:
+            for url, logpath in (('/mainlogtail', os.path.join(bed.workdir, 'main.log')),
+                                 ('/logtail/g:p', os.path.join(bed.workdir, 'p.log'))):
+                initial, steps = b'abc', [[('append', b'def')], [('append', b'ghi')]]
+                headb, bursts, states = bed.stream(url, logpath, initial, steps, version=version, headers=hv)
+                got = headb + b''.join(bursts)
+                count('stream-variant:HTTP/%s %s' % (version, '; '.join(hv) if hv else '-'))
+                if chunked:
+                    ok = headb.startswith(b'HTTP/1.1 200') and b'Transfer-Encoding: chunked' in headb
+                    data = None
+                    if ok:
+                        try:
+                            data, _ = H.independent_decode(b''.join(bursts))
+                        except ValueError:
+                            data = None
+                    if not ok or data != b'abcdefghi':
+                        chk.violation({'kind': 'PROPERTY VIOLATED: an HTTP/1.1 tail request that does not ask to close did not '
+                                       'get the chunked stream of the log', 'request': 'GET %s HTTP/%s' % (url, version),
+                                       'request_headers': list(hv), 'initial': list(initial), 'steps': _j(steps),
+                                       'received': list(got[:600]), 'expected_body': list(b'abcdefghi')})
+                else:
+                    if got == b'':
+                        known['http10'] += 1
+                    elif b'abcdefghi' not in got:
+                        chk.violation({'kind': 'non-chunked tail delivered something other than the log bytes',
+                                       'request': 'GET %s HTTP/%s' % (url, version), 'request_headers': list(hv),
+                                       'got': list(got[:400])}, nofail=True)
+        # ---- 2c. maintenance (kill_zombies) while a tail is streaming: the fake clock runs past zombie_timeout
+        #          (30 min) in steps during which stream A keeps delivering; then the real maintenance is
+        #          triggered through the real accept path.  In use => stays open; idle beyond the timeout => closed.
+        for step_s, nsteps, idle in ((200, 10, 0), (200, 5, 0), (600, 4, 1700), (1000, 2, 1801)):
+            z = bed.zombie_scenario(step_s, nsteps, idle)
+            count('zombie:scenario')
+            sched = {'timeline': z['timeline'], 'zombie_timeout': z['timeout'], 'clock_at_maintenance': z['now'],
+                     'channels_last_used_creation_survived': z['channels']}
+            total_idle = step_s * nsteps + idle      # how long B, C, D have been idle at maintenance
+            a_idle = idle                            # A delivered at the last step
+            gotA = z['got']['A']
+            hi = gotA.find(b'\r\n\r\n')
+            try:
+                dataA, _ = H.independent_decode(gotA[hi + 4:]) if hi >= 0 else (None, False)
+            except ValueError:
+                dataA = None
+            if a_idle <= z['timeout']:
+                if z['closed']['A'] or dataA != z['initial'] + z['appended']:
+                    chk.violation(dict(sched, kind='PROPERTY VIOLATED: a /mainlogtail stream that delivered data within '
+                                       'zombie_timeout was closed by maintenance (the response must stay open)',
+                                       closed=z['closed']['A'], received=list(gotA[-400:]),
+                                       expected_body=list(z['initial'] + z['appended'])))
+            elif not z['closed']['A']:
+                chk.violation(dict(sched, kind='a stream idle beyond zombie_timeout survived maintenance'), nofail=True)
+            for k in ('B', 'C', 'D'):
+                if (total_idle > z['timeout']) != z['closed'][k]:
+                    chk.violation(dict(sched, kind='maintenance closed a connection idle for less than zombie_timeout, or kept '
+                                       'one idle for longer', connection=k, idle_seconds=total_idle, closed=z['closed'][k]),
+                                  nofail=z['closed'][k] is False)
+            zombie_cases.append('(%s, %s, %s)' % (zlit(z['now']), zlit(z['timeout']),
+                                                  coq_list(['(%s, %s)' % (zlit(lu), 'true' if sv else 'false')
+                                                            for lu, ct, sv in z['channels']])))
+            zombie_meta.append(sched)
+            distinct.add(('zombie', step_s, nsteps, idle, tuple(sorted(z['closed'].items()))))
     finally:
         if bed is not None:
             bed.close()
@@ -432,6 +503,7 @@ def run_part(chk, workdir):
         ('decode', 'dec_case', 'check_dec_case', dec_cases, dec_meta),
         ('encode', 'list bytes * bytes', 'check_encode', enc_cases, enc_meta),
         ('channel', 'chan_case', 'check_chan_case', chan_cases, chan_meta),
+        ('zombie', 'Z * Z * list (Z * bool)', 'check_zombie_case', zombie_cases, zombie_meta),
         ('rpcfs_read', 'bool * Z * bytes * Z * Z * rpc_read', 'check_rpc_read_fs', rf_read[0], rf_read[1]),
         ('rpcfs_tail', 'bool * Z * bytes * Z * Z * rpc_tail', 'check_rpc_tail_fs', rf_tail[0], rf_tail[1]),
         ('rpcfs_clear', 'bool * Z * rpc_clear', 'check_rpc_clear', rf_clear[0], rf_clear[1]),
